@@ -218,6 +218,18 @@ def init_cases(seed=0):
                         n += 1
                         if len(dts) and not np.all(dts == dt_init):
                             bad.append(dict(case, what="fixed-step run used a step different from dt_init", steps=sorted(set(np.round(dts, 12).tolist()))[:4]))
+        # a solver that is run a second time starts again from dt_init (the warm-up steps of an adaptive run are dt_init) and takes the same steps
+        from tdgl.sources import ConstantField, LinearRamp
+        for field in (0.3, LinearRamp(tmin=0.0, tmax=0.2) * ConstantField(0.6, field_units="mT", length_units="um")):
+            o = tdgl.SolverOptions(solve_time=0.3, dt_init=1e-4, dt_max=2e-2, adaptive=True, adaptive_window=4, output_file=os.path.join(td, f"twice{n}.h5"), save_every=20, field_units="mT")
+            s = TDGLSolver(dev, o, applied_vector_potential=field, terminal_currents=dict(source=1.0, drain=-1.0))
+            first = s.solve().dynamics.dt
+            second = s.solve().dynamics.dt
+            n += 1
+            if second[0] != 1e-4 or len(first) != len(second) or not np.array_equal(first, second):
+                bad.append(dict(what="the second solve() of one solver does not start from dt_init / does not take the steps of the first run", dt_init=1e-4,
+                                time_dependent_field=not isinstance(field, float), first_steps_of_run_1=first[:3].tolist(), first_steps_of_run_2=second[:3].tolist(),
+                                n_steps=(len(first), len(second))))
     logging.disable(logging.NOTSET)
     return bad, n
 
